@@ -95,6 +95,12 @@ func certVerdict(cert *x509.Certificate, pool *x509.CertPool, expected string, m
 }
 
 func certApply(op string, rawArgs json.RawMessage) interface{} {
+	switch op {
+	case "mtls":
+		return mtlsApply(rawArgs)
+	case "verifytime":
+		return vtimeApply(rawArgs)
+	}
 	var a certArgs
 	if err := json.Unmarshal(rawArgs, &a); err != nil {
 		panic(err)
@@ -195,11 +201,16 @@ func certApply(op string, rawArgs json.RawMessage) interface{} {
 		f := ReceptorVerifyFunc(&tls.Config{RootCAs: pool, ClientCAs: pool}, pins, "node-a", ExpectedHostnameTypeReceptor, role, verifQuietLogger())
 		acc := []bool{}
 		for _, which := range a.Seq {
-			der := derA
-			if which == "B" {
-				der = derB
+			// "A", "B": that certificate alone; "BA": B as the leaf with A appended; "AB": A as the leaf with B appended
+			chain := [][]byte{}
+			for _, ch := range which {
+				if ch == 'B' {
+					chain = append(chain, derB)
+				} else {
+					chain = append(chain, derA)
+				}
 			}
-			acc = append(acc, f([][]byte{der}, nil) == nil)
+			acc = append(acc, f(chain, nil) == nil)
 		}
 		return map[string]interface{}{"accepts": acc}
 	case "verify":
@@ -426,12 +437,19 @@ func verifyGen(v *verifRun) {
 		c.Expected = ""
 		emit(c)
 	}
-	for _, seq := range [][]string{{"A", "B"}, {"B", "A"}, {"A", "B", "A"}, {"B", "B", "A", "A", "B"}, {"A", "A"}} {
+	for _, seq := range [][]string{{"A", "B"}, {"B", "A"}, {"A", "B", "A"}, {"B", "B", "A", "A", "B"}, {"A", "A"}, {"BA", "AB"}, {"AB", "BA", "B"}, {"BAA", "A"}} {
 		for _, pin := range []string{"sha256", "sha512", "sha224", "sha384"} {
 			v.do(certApply, "verifyseq", certArgs{DNS: []string{}, IPs: []string{}, IDs: []string{}, Candidates: []string{}, Pins: []string{pin},
 				Seq: seq, Role: []string{"server", "client"}[v.rng.Intn(2)]})
 		}
 	}
+	// mesh level: every server profile against every kind of client certificate
+	for _, req := range []bool{true, false} {
+		for _, cas := range []bool{true, false} {
+			v.do(certApply, "mtls", mtlsArgs{Require: req, CAs: cas, Present: []string{"own", "other", "both", "none", "otherca", "expired", "serverusage", "own"}})
+		}
+	}
+	v.do(certApply, "verifytime", vtimeArgs{Role: []string{"server", "client"}[v.rng.Intn(2)]})
 	for i := 0; i < v.n; i++ {
 		a := certArgs{CA: cas[v.rng.Intn(len(cas))], Validity: vals[v.rng.Intn(len(vals))], Usage: usages[v.rng.Intn(4)],
 			Pins: pinSets[v.rng.Intn(len(pinSets))], Role: []string{"server", "client"}[v.rng.Intn(2)], Mode: "receptor",
